@@ -363,6 +363,19 @@ def explore_composite(tier, seed, budget):
                 "SPECIFICATION Spec\nCONSTRAINT Depth\nVIEW view\nPROPERTY AnswerStep\nINVARIANT RegDisjoint\n"
                 "INVARIANT RegWithinVars\nINVARIANT Coverage\nINVARIANT FlagSound\nINVARIANT CheckedSat\n"
                 "CHECK_DEADLOCK FALSE\n")
+    cfg_text = open(os.path.join(d, "MC.cfg")).read()
+    with open(os.path.join(d, "MC.cfg"), "w") as f:
+        f.write(cfg_text.replace("CONSTANTS\n", 'CONSTANTS\n Variant = "code"\n', 1))
+    with open(os.path.join(d, "MCneg.cfg"), "w") as f:
+        f.write(cfg_text.replace("CONSTANTS\n", 'CONSTANTS\n Variant = "nomerge"\n', 1).replace("MaxDepth = %d" % depth, "MaxDepth = 3"))
+    # negative control: the same properties must be refuted on a model that does not merge the children an add touches
+    pn = subprocess.run(["java", "-XX:+UseParallelGC", "-Xmx4g", "-cp", C.TLA_CP, "tlc2.TLC", "-workers", "4", "-noGenerateSpecTE",
+                         "-metadir", os.path.join(d, "mdn"), "-config", "MCneg.cfg", "MC.tla"], cwd=d, capture_output=True,
+                        text=True, timeout=1200)
+    if "is violated" not in pn.stdout + pn.stderr:
+        raise C.MachineryError("vacuity: SolverComposite's properties hold on the negative-control variant 'nomerge':\n" +
+                               (pn.stdout + pn.stderr)[-1500:])
+    neg = re.findall(r"Error: (?:Invariant|Action property) (\w+) is violated", pn.stdout + pn.stderr)
     cmd = ["java", "-XX:+UseParallelGC", "-Xmx8g", "-cp", C.TLA_CP, "tlc2.TLC", "-workers", "8", "-noGenerateSpecTE",
            "-metadir", os.path.join(d, "md"), "-config", "MC.cfg", "-dump", os.path.join(d, "states"), "-coverage", "1",
            "MC.tla"]
@@ -371,7 +384,8 @@ def explore_composite(tier, seed, budget):
     st = C.tlc_stats(out)
     if st is None:
         raise C.MachineryError("SolverComposite exploration failed:\n" + out[-3000:])
-    stats = {"states": st["distinct"], "transitions": st["generated"], "depth": depth, "model_violation": None}
+    stats = {"states": st["distinct"], "transitions": st["generated"], "depth": depth, "model_violation": None,
+             "negative_control_refuted_by": neg[:1]}
     if "is violated" in out:
         stats["model_violation"] = re.findall(r"Error: (.* is violated.*)", out)[:1]
     for act in ("Add", "Sat", "Eval", "Simplify", "Split"):
